@@ -359,14 +359,15 @@ def gen_schema(st, want_mutation=False, small=False,
 # --------------------------------------------------------------------------
 class FieldSel:
     __slots__ = ("name", "alias", "args", "kwargs", "sel", "dirs", "pos",
-                 "ptype")
+                 "ptype", "argspec")
     kind = "field"
 
     def __init__(self, name, alias=None, args=(), kwargs=None, sel=None,
-                 dirs=()):
+                 dirs=(), argspec=None):
         self.name = name
         self.alias = alias
         self.args = list(args)      # [(arg name, rendered text)]
+        self.argspec = argspec or {}  # arg name -> ("lit", py) | ("var", v)
         self.kwargs = kwargs or {}  # expected resolver-side kwargs
         self.sel = sel              # list of selections or None
         self.dirs = list(dirs)
@@ -398,12 +399,33 @@ class Spread:
 
 
 class DirSpec:
-    __slots__ = ("kind", "text", "truth")
+    __slots__ = ("kind", "text", "truth", "var")
 
-    def __init__(self, kind, text, truth):
+    def __init__(self, kind, text, truth, var=None):
         self.kind = kind    # "skip" | "include"
         self.text = text    # "true" | "false" | "$b0"
         self.truth = truth  # bool
+        self.var = var      # variable name when the condition is a variable
+
+
+class VarInfo:
+    """One operation variable: its definition and the value this request
+    sends for it (which may be re-drawn to replay the same document with
+    other variables)."""
+    __slots__ = ("name", "tstr", "tref", "default_lit", "default_py",
+                 "provided", "json", "py", "is_dir")
+
+    def __init__(self, name, tstr_, tref, default_lit=None, default_py=None,
+                 provided=True, json_value=None, py=None, is_dir=False):
+        self.name = name
+        self.tstr = tstr_
+        self.tref = tref
+        self.default_lit = default_lit
+        self.default_py = default_py
+        self.provided = provided
+        self.json = json_value
+        self.py = py
+        self.is_dir = is_dir
 
 
 def excluded(dirs):
@@ -422,11 +444,18 @@ class OpSpec:
         self.root_type = None
         self.sel = []
         self.fragments = {}   # name -> (cond type, selections)
-        self.vardefs = []     # [(name, type str, default literal or None)]
-        self.variables = {}   # JSON variables sent with the request
+        self.vars = {}        # name -> VarInfo (insertion ordered)
         self.extra_op = False
         self.operation_name = None
         self.text = None
+
+    @property
+    def vardefs(self):
+        return [(v.name, v.tstr, v.default_lit) for v in self.vars.values()]
+
+    @property
+    def variables(self):
+        return {v.name: v.json for v in self.vars.values() if v.provided}
 
 
 INT_VALUES = (0, 1, -1, 7, 42, -50)
@@ -447,12 +476,19 @@ class OpGen:
         self.features = features or {}
 
     # -- values -----------------------------------------------------------
-    def _new_var(self, tstr_, json_value, provided=True, default_lit=None):
+    def _new_var(self, tref, lit_json_py=None, provided=True,
+                 with_default=False, is_dir=False, tstr_=None):
         name = "v%d" % self.nvar
         self.nvar += 1
-        self.op.vardefs.append((name, tstr_, default_lit))
-        if provided:
-            self.op.variables[name] = json_value
+        v = VarInfo(name, tstr_ or tstr(tref), tref, is_dir=is_dir)
+        if lit_json_py is not None:
+            lit, js, py = lit_json_py
+            if with_default:
+                v.default_lit, v.default_py = lit, py
+            if provided:
+                v.json, v.py = js, py
+        v.provided = provided
+        self.op.vars[name] = v
         return name
 
     def _lit(self, base, st):
@@ -512,53 +548,45 @@ class OpGen:
         return self._lit(t[1], st)
 
     def _gen_argset(self, fdef):
-        """Draw one way of calling ``fdef``: ([(name, text)], kwargs)."""
+        """Draw one way of calling ``fdef``:
+        ([(name, text)], {name: ("lit", py) | ("var", varname)})."""
         st = self.st
-        args, kwargs = [], {}
+        args, argspec = [], {}
         for a in fdef.args:
             required = a.type[0] == "NN"
             mode = st.weighted((4, 3, 2, 1) if not required else (4, 3, 0, 0),
                                "argmode")
             # 0 literal, 1 variable, 2 omitted, 3 explicit null
             if mode == 2:
-                if a.has_default:
-                    kwargs[a.name] = a.default_py
                 continue
             if mode == 3:
                 if st.chance(1, 2, "nullvar"):
-                    v = self._new_var(tstr(a.type), None, provided=True)
+                    v = self._new_var(a.type, None, provided=True)
                     args.append((a.name, "$" + v))
+                    argspec[a.name] = ("var", v)
                 else:
                     args.append((a.name, "null"))
-                kwargs[a.name] = None
+                    argspec[a.name] = ("lit", None)
                 continue
-            lit, js, py = self._value(a.type, st)
+            val = self._value(a.type, st)
             if mode == 1:
                 how = st.below(3, "varhow")
-                if how == 0:
-                    v = self._new_var(tstr(a.type), js, provided=True)
-                    kwargs[a.name] = py
+                if how == 0 or (how == 2 and required):
+                    v = self._new_var(a.type, val, provided=True)
                 elif how == 1:
                     # not provided, variable default applies
-                    v = self._new_var(
-                        tstr(a.type), None, provided=False, default_lit=lit
-                    )
-                    kwargs[a.name] = py
+                    v = self._new_var(a.type, val, provided=False,
+                                      with_default=True)
                 else:
-                    if required:
-                        v = self._new_var(tstr(a.type), js, provided=True)
-                        kwargs[a.name] = py
-                    else:
-                        # not provided, no default: argument is absent or
-                        # takes the argument's own default
-                        v = self._new_var(tstr(a.type), None, provided=False)
-                        if a.has_default:
-                            kwargs[a.name] = a.default_py
+                    # not provided, no default: the argument is absent or
+                    # takes the argument's own default
+                    v = self._new_var(a.type, None, provided=False)
                 args.append((a.name, "$" + v))
+                argspec[a.name] = ("var", v)
             else:
-                args.append((a.name, lit))
-                kwargs[a.name] = py
-        return args, kwargs
+                args.append((a.name, val[0]))
+                argspec[a.name] = ("lit", val[2])
+        return args, argspec
 
     def _argset_for(self, fdef):
         """Pick (alias, args, kwargs).  Un-aliased occurrences always use
@@ -578,14 +606,14 @@ class OpGen:
         if idx in sets and sets[idx][2]:
             idx = max(sets) + 1
         if idx not in sets:
-            args, kwargs = self._gen_argset(fdef)
+            args, argspec = self._gen_argset(fdef)
             nodup = any(
                 t.startswith(("$", "[", "{")) or t == "null" for _, t in args
             )
-            sets[idx] = (args, kwargs, nodup)
+            sets[idx] = (args, argspec, nodup)
         alias = None if idx == 0 else "%s_a%d" % (fdef.name, idx)
-        args, kwargs, _ = sets[idx]
-        return alias, args, kwargs
+        args, argspec, _ = sets[idx]
+        return alias, args, argspec
 
     # -- directives ---------------------------------------------------------
     def _dirs(self):
@@ -596,19 +624,18 @@ class OpGen:
         which = st.below(3, "dir_which")  # 0 skip, 1 include, 2 both
         for kind in (("skip",), ("include",), ("skip", "include"))[which]:
             truth = bool(st.below(2, "dir_truth"))
+            val = ("true" if truth else "false", truth, truth)
             if st.chance(1, 3, "dir_var"):
                 how = st.below(2, "dir_varhow")
                 if how == 0:
-                    v = self._new_var("Boolean!", truth, provided=True)
+                    v = self._new_var(NN(N("Boolean")), val, provided=True,
+                                      is_dir=True)
                 else:
-                    v = self._new_var(
-                        "Boolean", None, provided=False,
-                        default_lit="true" if truth else "false",
-                    )
-                text = "$" + v
+                    v = self._new_var(N("Boolean"), val, provided=False,
+                                      with_default=True, is_dir=True)
+                out.append(DirSpec(kind, "$" + v, truth, var=v))
             else:
-                text = "true" if truth else "false"
-            out.append(DirSpec(kind, text, truth))
+                out.append(DirSpec(kind, val[0], truth))
         return out
 
     # -- selections ---------------------------------------------------------
@@ -693,13 +720,13 @@ class OpGen:
                 return f
         fname = cands[st.below(len(cands), "field")]
         fdef = spec.fields[fname]
-        alias, args, kwargs = self._argset_for(fdef)
+        alias, args, argspec = self._argset_for(fdef)
         self.budget -= 1
         target = named(fdef.type)
         sel = None
         if spec.is_composite(target):
             sel = self.gen_selset(target, depth - 1)
-        f = FieldSel(fname, alias=alias, args=args, kwargs=kwargs, sel=sel,
+        f = FieldSel(fname, alias=alias, args=args, argspec=argspec, sel=sel,
                      dirs=self._dirs())
         f.ptype = tname
         return f
@@ -714,15 +741,16 @@ class OpGen:
         if kind == "subscription":
             which = self.features.get("sub_field", "s0")
             fdef = self.spec.fields[which]
-            alias, args, kwargs = self._argset_for(fdef)
+            alias, args, argspec = self._argset_for(fdef)
             sel = None
             if self.spec.is_composite(named(fdef.type)):
                 sel = self.gen_selset(named(fdef.type), self.max_depth - 1)
-            f = FieldSel(which, alias=alias, args=args, kwargs=kwargs,
+            f = FieldSel(which, alias=alias, args=args, argspec=argspec,
                          sel=sel)
             f.ptype = op.root_type
             op.sel = [f]
             op.name = "Sub" if st.chance(1, 2, "named") else None
+            resolve_op(op, self.spec)
             return op
         if kind == "mutation":
             # 1..5 root fields, each possibly repeated / aliased / skipped
@@ -743,7 +771,78 @@ class OpGen:
             op.operation_name = "Main"
         elif op.name and st.chance(1, 2, "opname"):
             op.operation_name = "Main"
+        resolve_op(op, self.spec)
         return op
+
+    def revary(self, st):
+        """Re-draw the values sent for the operation's variables (same
+        document, other variables) and recompute every expectation that
+        depends on them."""
+        for v in self.op.vars.values():
+            nonnull = v.tstr.endswith("!")
+            if v.is_dir:
+                truth = bool(st.below(2, "dir_truth"))
+                if v.default_lit is None or st.chance(1, 2, "dir_provide"):
+                    v.provided, v.json, v.py = True, truth, truth
+                else:
+                    v.provided, v.json, v.py = False, None, None
+                continue
+            choice = st.weighted((3, 1, 1), "var_state")
+            # 0 provided with a value, 1 not provided, 2 provided null
+            if nonnull and v.default_lit is None:
+                choice = 0
+            if choice == 2 and nonnull:
+                choice = 0
+            if choice == 0:
+                lit, js, py = self._value(v.tref, st)
+                v.provided, v.json, v.py = True, js, py
+            elif choice == 1:
+                v.provided, v.json, v.py = False, None, None
+            else:
+                v.provided, v.json, v.py = True, None, None
+        resolve_op(self.op, self.spec)
+
+
+def _walk_selections(op):
+    stack = [op.sel] + [sels for _, sels in op.fragments.values()]
+    while stack:
+        sels = stack.pop()
+        for s_ in sels:
+            yield s_
+            if s_.kind in ("field", "inline") and s_.sel:
+                stack.append(s_.sel)
+
+
+def resolve_op(op, spec):
+    """Compute, from the current variable values, the resolver-side kwargs of
+    every field selection and the truth of every directive condition."""
+    vars_ = op.vars
+    for s_ in _walk_selections(op):
+        for d in s_.dirs:
+            if d.var is not None:
+                v = vars_[d.var]
+                d.truth = v.py if v.provided else v.default_py
+        if s_.kind != "field" or s_.name not in spec.fields:
+            continue
+        fdef = spec.fields[s_.name]
+        kw = {}
+        for a in fdef.args:
+            src = s_.argspec.get(a.name)
+            if src is None:
+                if a.has_default:
+                    kw[a.name] = a.default_py
+                continue
+            if src[0] == "lit":
+                kw[a.name] = src[1]
+                continue
+            v = vars_[src[1]]
+            if v.provided:
+                kw[a.name] = v.py
+            elif v.default_lit is not None:
+                kw[a.name] = v.default_py
+            elif a.has_default:
+                kw[a.name] = a.default_py
+        s_.kwargs = kw
 
 
 # --------------------------------------------------------------------------
